@@ -3,10 +3,6 @@ from pyvc.registry import contract
 
 TH = ["types", "events", "values"]
 
-contract("monkeytype.typing:get_type", props=["C02", "C04", "C05", "C06", "C03"], theories=TH,
-         params={"obj": "Val", "max_typed_dict_size": "Opt[int]"}, result="Ty", mode="deferred",
-         note="contract proved in contracts/typing.py; tracing.py only needs that it is a function of its arguments")
-
 contract("monkeytype.tracing:get_func", props=["C02"], theories=TH, mode="assumed",
          params={"frame": "Frame"}, result="Opt[Func]",
          ensures={"post:code": "implies(result is not None, code_of(result) is code_of(frame))"},
@@ -32,7 +28,7 @@ _ARGN = "seq_prefix(co_varnames(code_of(frame)), co_argcount(code_of(frame)) + c
 contract("monkeytype.tracing:CallTracer.handle_call", props=["C02", "C18", "C06"], theories=TH, pure=False,
          modifies=["traces", "cache", "func", "arg_types", "return_type", "yield_type"],
          params={"self": "Tracer", "frame": "Frame"}, result="none",
-         requires={"rate": "self.sample_rate is None or self.sample_rate >= 0",
+         requires={"rate": "self.sample_rate is None or self.sample_rate >= 0", "locals-wf": "forall_v(lambda n: implies(has(locals_of(frame), n), wf_val(lookup(locals_of(frame), n))))",
                    "cache-wf": "forall(self.cache, lambda c: lookup(self.cache, c) is None or code_of(lookup(self.cache, c)) is c)"},
          ensures={
              # C18: a call that was not sampled leaves no trace and no residue
@@ -79,7 +75,7 @@ _RET_POSTS = {
     # arrives as ('return', None) with YIELD_VALUE as the last opcode, indistinguishable from `yield None`
     "post:unwind": "implies(%s and cause(frame) is CAUSE_unwind and opcode_at(code_of(frame), lasti(frame)) != OP_YIELD_VALUE, self.traces is dict_del_(old(self.traces), frame) and unchanged('yield_type') and %s)" % (_HAS, _LOGGED.format(ret="None")),
 }
-_RET_REQ = {"protocol": "cause(frame) is CAUSE_yield or cause(frame) is CAUSE_await_suspend or cause(frame) is CAUSE_return or cause(frame) is CAUSE_unwind",
+_RET_REQ = {"arg-wf": "wf_val(arg)", "protocol": "cause(frame) is CAUSE_yield or cause(frame) is CAUSE_await_suspend or cause(frame) is CAUSE_return or cause(frame) is CAUSE_unwind",
             "unwind-arg": "implies(cause(frame) is CAUSE_unwind, arg is None)",
             "trace-wf": "implies(%s, %s is not None and %s.return_type is None)" % ("has(self.traces, frame)", "lookup(self.traces, frame)", "lookup(self.traces, frame)")}
 contract("monkeytype.tracing:CallTracer.handle_return", props=["C02", "C18"], theories=TH, pure=False,
@@ -120,7 +116,7 @@ contract("monkeytype.tracing:CallTracer.__call__", props=["C02", "C03", "C17", "
          modifies=["traces", "cache", "func", "arg_types", "return_type", "yield_type"], effects="log",
          params={"self": "Tracer", "frame": "Frame", "event": "strp", "arg": "Val"}, result="Tracer",
          requires={"protocol": "event_matches(frame, event)",
-                   "unwind-arg": "implies(cause(frame) is CAUSE_unwind, arg is None)",
+                   "unwind-arg": "implies(cause(frame) is CAUSE_unwind, arg is None)", "arg-wf": "wf_val(arg)", "locals-wf": "forall_v(lambda n: implies(has(locals_of(frame), n), wf_val(lookup(locals_of(frame), n))))",
                    "rate": "self.sample_rate is None or self.sample_rate >= 0",
                    "trace-wf": "implies(has(self.traces, frame), lookup(self.traces, frame) is not None and lookup(self.traces, frame).return_type is None)",
                    "cache-wf": "forall(self.cache, lambda c: lookup(self.cache, c) is None or code_of(lookup(self.cache, c)) is c)"},
